@@ -15,21 +15,41 @@ From VV Require Import Ls.LsModel Ls.LsProofs Ls.GeneratedTables Ls.TablesReview
 Theorem C07_ls_refines_spec :
   forall (table content fact diag : Type)
          (written dropped drained observable : table -> bool)
+         (close_handled remove_forgets : bool)
          (pass1 : file -> content -> table -> list fact)
          (diagf : file -> (table -> file -> list fact) -> diag),
     discipline table written dropped drained observable ->
     reads_observable_only table fact diag observable diagf ->
     forall w0 h f d,
       (forall g, editor content w0 g = None) ->
-      hist_ok table content fact diag written dropped drained pass1 diagf (w0, init_srv table content fact) h ->
+      hist_ok table content fact diag written dropped drained close_handled remove_forgets pass1 diagf
+              (w0, init_srv table content fact) h ->
       refresh table content fact diag written dropped drained pass1 diagf
-              (run table content fact diag written dropped drained pass1 diagf w0 h) f = Some d ->
+              (run table content fact diag written dropped drained close_handled remove_forgets pass1 diagf w0 h) f = Some d ->
       d = diags_spec table content fact diag written drained pass1 diagf
-            (cur content (fst (run table content fact diag written dropped drained pass1 diagf w0 h))) f.
+            (cur content (fst (run table content fact diag written dropped drained close_handled remove_forgets pass1 diagf w0 h))) f.
 Proof. exact ls_refines_spec. Qed.
 
-(* The same for the classification extracted from the Rust source on this run: the discipline is decided by
-   vm_compute on the generated lists (Ls/TablesReview.v: discipline_holds). *)
+(* A server that handles didClose (forget the buffer, drop the file, re-read the project) and whose
+   willRename/willDelete forget the buffer needs NO condition on the history: every sequence of notifications. *)
+Theorem C07_ls_refines_spec_all_histories :
+  forall (table content fact diag : Type)
+         (written dropped drained observable : table -> bool)
+         (pass1 : file -> content -> table -> list fact)
+         (diagf : file -> (table -> file -> list fact) -> diag),
+    discipline table written dropped drained observable ->
+    reads_observable_only table fact diag observable diagf ->
+    forall w0 h f d,
+      (forall g, editor content w0 g = None) ->
+      refresh table content fact diag written dropped drained pass1 diagf
+              (run table content fact diag written dropped drained true true pass1 diagf w0 h) f = Some d ->
+      d = diags_spec table content fact diag written drained pass1 diagf
+            (cur content (fst (run table content fact diag written dropped drained true true pass1 diagf w0 h))) f.
+Proof. exact ls_refines_spec_all_histories. Qed.
+
+(* The same for the classification and the server shape extracted from the Rust source on this run: the discipline
+   and the two server flags (did_close handled, on_remove forgets the buffer) are decided by vm_compute on the
+   generated definitions (Ls/TablesReview.v), so there is no condition on the history. *)
 Theorem C07_ls_refines_spec_generated :
   forall (content fact diag : Type)
          (pass1 : file -> content -> table -> list fact)
@@ -37,7 +57,6 @@ Theorem C07_ls_refines_spec_generated :
     ls_reads_observable_only fact diag diagf ->
     forall w0 h f d,
       (forall g, editor content w0 g = None) ->
-      ls_hist_ok content fact diag pass1 diagf (w0, init_srv table content fact) h ->
       ls_refresh content fact diag pass1 diagf (ls_run content fact diag pass1 diagf w0 h) f = Some d ->
       d = ls_spec content fact diag pass1 diagf (cur content (fst (ls_run content fact diag pass1 diagf w0 h))) f.
 Proof. exact ls_refines_spec_generated. Qed.
@@ -51,8 +70,6 @@ Theorem C07_ls_history_independent_generated :
     ls_reads_observable_only fact diag diagf ->
     forall w1 h1 w2 h2 f d1 d2,
       (forall g, editor content w1 g = None) -> (forall g, editor content w2 g = None) ->
-      ls_hist_ok content fact diag pass1 diagf (w1, init_srv table content fact) h1 ->
-      ls_hist_ok content fact diag pass1 diagf (w2, init_srv table content fact) h2 ->
       (forall g, cur content (fst (ls_run content fact diag pass1 diagf w1 h1)) g =
                  cur content (fst (ls_run content fact diag pass1 diagf w2 h2)) g) ->
       ls_refresh content fact diag pass1 diagf (ls_run content fact diag pass1 diagf w1 h1) f = Some d1 ->
@@ -65,16 +82,19 @@ Proof. exact ls_history_independent_generated. Qed.
    drained by analyze_post_pass1 — except exactly the reviewed known-stale tables. *)
 Theorem C07_table_discipline :
   discipline_b = true /\ stale_tables = known_stale_l /\
-  on_change_shape_ok = true /\ background_shape_ok = true /\ on_remove_drops = true.
+  on_change_shape_ok = true /\ background_shape_ok = true /\ on_remove_drops = true /\
+  did_close_handled = true /\ on_remove_forgets = true.
 Proof.
   exact (conj discipline_holds (conj stale_tables_are_the_known_ones
-        (conj (proj1 server_shape_ok) (conj (proj1 (proj2 server_shape_ok)) (proj1 (proj2 (proj2 server_shape_ok))))))).
+        (conj (proj1 server_shape_ok) (conj (proj1 (proj2 server_shape_ok)) (conj (proj2 (proj2 server_shape_ok))
+        (conj close_is_handled remove_forgets_buffer)))))).
 Qed.
 
 (* Converse (witness schema): a table that pass 1 writes, drop_file does not clear and no post pass drains keeps
    facts of the earlier text — 2-edit history  didOpen f (c1); didChange f c2. *)
 Theorem C07_stale_table_witness :
   forall (table content fact : Type) (written dropped drained : table -> bool)
+         (close_handled remove_forgets : bool)
          (pass1 : file -> content -> table -> list fact) (feqb : fact -> fact -> bool)
          t x f c1 c2,
     written t = true -> dropped t = false -> drained t = false ->
@@ -82,13 +102,13 @@ Theorem C07_stale_table_witness :
     existsb (feqb x) (pass1 f c2 t) = false ->
     let D := reveal table fact feqb t x in
     let h := [Open f; Change f c2] in
-    let st := run table content fact bool written dropped drained pass1 D (only_file content f c1) h in
-    hist_ok table content fact bool written dropped drained pass1 D
+    let st := run table content fact bool written dropped drained close_handled remove_forgets pass1 D (only_file content f c1) h in
+    hist_ok table content fact bool written dropped drained close_handled remove_forgets pass1 D
             (only_file content f c1, init_srv table content fact) h /\
     refresh table content fact bool written dropped drained pass1 D st f = Some true /\
     diags_spec table content fact bool written drained pass1 D (cur content (fst st)) f = false /\
     refresh table content fact bool written dropped drained pass1 D
-            (run table content fact bool written dropped drained pass1 D (only_file content f c2) [Open f]) f
+            (run table content fact bool written dropped drained close_handled remove_forgets pass1 D (only_file content f c2) [Open f]) f
       = Some false.
 Proof. exact stale_table_witness. Qed.
 
@@ -103,19 +123,35 @@ Qed.
 
 (* an admissible history using every kind of notification: open, edit, save, close, reopen, rename of an open
    and of a closed file, delete *)
+(* an admissible history for a server that IGNORES didClose (both flags false), using every kind of notification:
+   open, edit, save, close, reopen, rename of an open and of a closed file, delete *)
 Example C07_hist_ok_example :
   let w0 := mkWorld nat (fun g => if g <? 3 then Some g else None) (fun _ => None) in
-  ls_hist_ok nat nat nat (fun g c t => [g + c]) (fun f tb => length (tb T_symbols f))
+  hist_ok table nat nat nat written dropped drained false false (fun g c t => [g + c]) (fun f tb => length (tb T_symbols f))
     (w0, init_srv table nat nat)
     [Open 0; Change 0 7; Open 1; Save 0; Close 0; Change 1 9; Rename 2 5; Open 0; Save 1; Rename 1 6; Delete 5; Change 6 4].
-Proof. vm_compute. repeat split; try discriminate; intros c H; inversion H; reflexivity. Qed.
+Proof. vm_compute. repeat split; try discriminate; try (right; intros c H; inversion H; reflexivity); intros; reflexivity. Qed.
+
+(* why the ignoring server needs them (model level; both were replayed on the real server before the repair) *)
+Example C07_dirty_close_needs_handling :
+  forall t, written t = true -> dropped t = true -> drained t = false ->
+  let D := reveal_at table nat Nat.eqb t 7 1 in
+  let st := run table nat nat bool written dropped drained false false (fun f c t' => [c]) D
+                (files3 nat 1 3 2 5 0 None) [Open 2; Open 1; Change 1 7; Close 1] in
+  refresh table nat nat bool written dropped drained (fun f c t' => [c]) D st 2 = Some true /\
+  diags_spec table nat nat bool written drained (fun f c t' => [c]) D (cur nat (fst st)) 2 = false.
+Proof.
+  intros t Hw Hp Hd.
+  exact (dirty_close_witness table nat nat written dropped drained (fun f c t' => [c]) Nat.eqb t 7 1 2 5 3 7
+           (ltac:(discriminate)) Hw Hp Hd eq_refl eq_refl).
+Qed.
 
 (* the tables actually excused as known-stale, and the ones dropped, on this tree *)
-Example C07_known_stale_now :
-  known_stale_l = [T_doc_comment; T_scope_imports; T_scope_wildcards; T_scope_mixins; T_scope_generic].
+Example C07_known_stale_now : known_stale_l = [T_scope_tree].
 Proof. reflexivity. Qed.
 
 Print Assumptions C07_ls_refines_spec.
+Print Assumptions C07_ls_refines_spec_all_histories.
 Print Assumptions C07_ls_refines_spec_generated.
 Print Assumptions C07_ls_history_independent_generated.
 Print Assumptions C07_table_discipline.
